@@ -61,76 +61,88 @@ where
 
 type Maker = fn(&Value) -> Option<Box<dyn BumpOps>>;
 
-/// settings tuple -> constructor, for one base allocator flavour
-fn maker_for<A: Flavour>(ma: u64, up: bool, ga: bool, de: bool, sh: bool, mcs: u64) -> Option<Maker>
-where
-    A: bump_scope::BaseAllocator<bump_scope::settings::Bool<true>> + bump_scope::BaseAllocator<bump_scope::settings::Bool<false>>,
-{
-    macro_rules! m {
-        ($ma:literal, $up:literal, $ga:literal, $de:literal, $sh:literal, $mcs:literal) => {
-            if ma == $ma && up == $up && ga == $ga && de == $de && sh == $sh && mcs == $mcs {
-                return Some(make::<A, $ma, $up, $ga, $de, $sh, $mcs> as Maker);
-            }
-        };
-    }
-    macro_rules! all_ma {
-        ($up:literal, $ga:literal, $de:literal, $sh:literal, $mcs:literal) => {
-            m!(1, $up, $ga, $de, $sh, $mcs);
-            m!(2, $up, $ga, $de, $sh, $mcs);
-            m!(4, $up, $ga, $de, $sh, $mcs);
-            m!(8, $up, $ga, $de, $sh, $mcs);
-            m!(16, $up, $ga, $de, $sh, $mcs);
-        };
-    }
-    // covering subset (every value of every setting, every pair of direction x {ga, dealloc, shrinks, mcs})
-    all_ma!(true, true, true, true, 0);
-    all_ma!(false, true, true, true, 0);
-    all_ma!(true, false, true, true, 0);
-    all_ma!(false, false, true, true, 512);
-    all_ma!(true, true, false, true, 512);
-    all_ma!(false, true, false, false, 0);
-    all_ma!(true, true, true, false, 0);
-    all_ma!(false, false, true, false, 512);
-    #[cfg(feature = "full")]
-    {
-        all_ma!(true, true, true, true, 512);
-        all_ma!(false, true, true, true, 512);
-        all_ma!(true, false, true, true, 512);
-        all_ma!(false, false, true, true, 0);
-        all_ma!(true, true, false, true, 0);
-        all_ma!(false, true, false, false, 512);
-        all_ma!(true, true, true, false, 512);
-        all_ma!(false, false, true, false, 0);
-        all_ma!(true, true, false, false, 0);
-        all_ma!(true, true, false, false, 512);
-        all_ma!(true, false, false, true, 0);
-        all_ma!(true, false, false, true, 512);
-        all_ma!(true, false, true, false, 0);
-        all_ma!(true, false, true, false, 512);
-        all_ma!(true, false, false, false, 0);
-        all_ma!(true, false, false, false, 512);
-        all_ma!(false, true, false, true, 0);
-        all_ma!(false, true, false, true, 512);
-        all_ma!(false, true, true, false, 0);
-        all_ma!(false, true, true, false, 512);
-        all_ma!(false, false, false, true, 0);
-        all_ma!(false, false, false, true, 512);
-        all_ma!(false, false, false, false, 0);
-        all_ma!(false, false, false, false, 512);
-    }
-    None
-}
-
+/// settings tuple + base allocator flavour -> constructor
 fn maker(cfg: &Value) -> Option<Maker> {
     let ma = cfg["ma"].as_u64()?;
     let (up, ga, de, sh) = (cfg["up"].as_bool()?, cfg["ga"].as_bool()?, cfg["dealloc"].as_bool()?, cfg["shrinks"].as_bool()?);
     let mcs = cfg["mcs"].as_u64()?;
-    match cfg["hs"].as_u64()? {
-        32 => maker_for::<ZstA>(ma, up, ga, de, sh, mcs),
-        48 => maker_for::<PtrA>(ma, up, ga, de, sh, mcs),
-        128 => maker_for::<BigA>(ma, up, ga, de, sh, mcs),
-        _ => None,
+    let hs = cfg["hs"].as_u64()?;
+    macro_rules! m {
+        ($a:ty, $hs:literal, $ma:literal, $up:literal, $ga:literal, $de:literal, $sh:literal, $mcs:literal) => {
+            if hs == $hs && ma == $ma && up == $up && ga == $ga && de == $de && sh == $sh && mcs == $mcs {
+                return Some(make::<$a, $ma, $up, $ga, $de, $sh, $mcs> as Maker);
+            }
+        };
     }
+    macro_rules! all_ma {
+        ($a:ty, $hs:literal, $up:literal, $ga:literal, $de:literal, $sh:literal, $mcs:literal) => {
+            m!($a, $hs, 1, $up, $ga, $de, $sh, $mcs);
+            m!($a, $hs, 2, $up, $ga, $de, $sh, $mcs);
+            m!($a, $hs, 4, $up, $ga, $de, $sh, $mcs);
+            m!($a, $hs, 8, $up, $ga, $de, $sh, $mcs);
+            m!($a, $hs, 16, $up, $ga, $de, $sh, $mcs);
+        };
+    }
+    macro_rules! all_flavours {
+        ($up:literal, $ga:literal, $de:literal, $sh:literal, $mcs:literal) => {
+            all_ma!(ZstA, 32, $up, $ga, $de, $sh, $mcs);
+            all_ma!(PtrA, 48, $up, $ga, $de, $sh, $mcs);
+            all_ma!(BigA, 128, $up, $ga, $de, $sh, $mcs);
+        };
+    }
+    // quick tier: a covering subset -- every value of every setting with every base allocator flavour and both
+    // directions; keep in sync with QuickTuples in spec/MC_Arena.tla
+    #[cfg(not(feature = "full"))]
+    {
+        all_ma!(ZstA, 32, true, true, true, true, 0);
+        all_ma!(PtrA, 48, false, true, true, true, 0);
+        all_ma!(BigA, 128, true, false, true, true, 0);
+        all_ma!(ZstA, 32, false, false, true, true, 512);
+        all_ma!(PtrA, 48, true, true, false, true, 512);
+        all_ma!(BigA, 128, false, true, false, false, 0);
+        all_ma!(ZstA, 32, true, true, true, false, 0);
+        all_ma!(PtrA, 48, false, false, true, false, 512);
+        all_ma!(PtrA, 48, true, false, true, true, 0);
+        all_ma!(BigA, 128, false, false, true, true, 512);
+        all_ma!(BigA, 128, true, true, true, true, 512);
+        all_ma!(ZstA, 32, false, true, true, false, 0);
+    }
+    #[cfg(feature = "full")]
+    {
+        all_flavours!(true, true, true, true, 0);
+        all_flavours!(true, true, true, true, 512);
+        all_flavours!(true, true, true, false, 0);
+        all_flavours!(true, true, true, false, 512);
+        all_flavours!(true, true, false, true, 0);
+        all_flavours!(true, true, false, true, 512);
+        all_flavours!(true, true, false, false, 0);
+        all_flavours!(true, true, false, false, 512);
+        all_flavours!(true, false, true, true, 0);
+        all_flavours!(true, false, true, true, 512);
+        all_flavours!(true, false, true, false, 0);
+        all_flavours!(true, false, true, false, 512);
+        all_flavours!(true, false, false, true, 0);
+        all_flavours!(true, false, false, true, 512);
+        all_flavours!(true, false, false, false, 0);
+        all_flavours!(true, false, false, false, 512);
+        all_flavours!(false, true, true, true, 0);
+        all_flavours!(false, true, true, true, 512);
+        all_flavours!(false, true, true, false, 0);
+        all_flavours!(false, true, true, false, 512);
+        all_flavours!(false, true, false, true, 0);
+        all_flavours!(false, true, false, true, 512);
+        all_flavours!(false, true, false, false, 0);
+        all_flavours!(false, true, false, false, 512);
+        all_flavours!(false, false, true, true, 0);
+        all_flavours!(false, false, true, true, 512);
+        all_flavours!(false, false, true, false, 0);
+        all_flavours!(false, false, true, false, 512);
+        all_flavours!(false, false, false, true, 0);
+        all_flavours!(false, false, false, true, 512);
+        all_flavours!(false, false, false, false, 0);
+        all_flavours!(false, false, false, false, 512);
+    }
+    None
 }
 
 fn main() {
